@@ -57,6 +57,11 @@ Init == /\ pc = "start" /\ cfg \in Cfgs /\ env = Env0
         /\ obs = InitObs /\ outcome = "none" /\ hist = <<>>
         /\ files = [txt |-> <<>>, json |-> <<>>] /\ pin = <<>>
 
+\* is_onboarded(): yes / no, or a reply that says neither ("g:<truth>": too short, empty, an error
+\* status - the harness runs every shape); the command must then stop
+Garbled(a)  == a \in {"g:yes", "g:no"}
+OnbTruth(a) == IF a = "g:yes" THEN "yes" ELSE IF a = "g:no" THEN "no" ELSE a
+
 P == PinOf(env.pinc)
 Answers(a) == IF a = "yes" THEN <<"yes">> ELSE IF a = "no" THEN <<"no">>
               ELSE IF a = "oy" THEN <<"other", "yes">> ELSE IF a = "on" THEN <<"other", "no">>
@@ -66,7 +71,7 @@ C == [op |-> cfg.op, plat |-> cfg.plat, any_pin |-> cfg.any_pin, no_unlock |-> c
       src |-> cfg.src,
       pins |-> IF cfg.src = "prompt" /\ env.retry = "valid" THEN <<P, PinOf("ok")>> ELSE <<P>>,
       upin |-> UPin, outfile |-> cfg.outfile, answers |-> Answers(env.answers),
-      d0 |-> [mode |-> env.mode, onb |-> env.onb, echo |-> env.echo],
+      d0 |-> [mode |-> env.mode, onb |-> IF Garbled(env.onb) THEN "garbled" ELSE env.onb, echo |-> env.echo],
       acc |-> [wipe |-> env.wipe, unlock |-> env.unlock, newpin |-> env.newpin],
       prev_seed |-> NoSeed]
 
@@ -121,11 +126,12 @@ AskMode ==
 
 AskOnb ==
     /\ pc = "onb"
-    /\ \E a \in {"yes", "no"} :
-         LET d == [dev EXCEPT !.onb = a] IN
+    /\ \E a \in {"yes", "no", "g:yes", "g:no"} :
+         LET d == [dev EXCEPT !.onb = OnbTruth(a)] IN
          /\ dev' = d /\ env' = [env EXCEPT !.onb = a]
-         /\ Emit(<<E("is_onboard", d, a, "t")>>)
-         /\ IF cfg.op = "onboard"
+         /\ Emit(<<E("is_onboard", d, IF Garbled(a) THEN "na" ELSE a, IF Garbled(a) THEN "f" ELSE "t")>>)
+         /\ IF Garbled(a) THEN Fail
+            ELSE IF cfg.op = "onboard"
             THEN (IF a = "no" THEN Go("confirm") ELSE Fail)
             ELSE (IF a = "yes" /\ dev.mode = "boot" THEN Go("echo") ELSE Fail)
     /\ UNCHANGED <<cfg, files, pin>>
